@@ -2,10 +2,11 @@
 
 Stage B: theorems of lean/FeVerif/Props/C07.lean (literal model of fusion_engine_framer.cc refines the scan).
 Stage C: the real FusionEngineFramer (cxx/c07_harness.cc, compiled on every run from $FE_REPO/src with ASan+UBSan)
-         against the literal Lean model (`cxxframer`) per OnData call: callbacks, return value, state_,
-         next_byte_index_, current_message_size_, capacity_bytes_.
+         against the literal Lean model (`cxxframer`) per OnData / Reset / SetBuffer call: callbacks, return value,
+         state_, next_byte_index_, current_message_size_, buffer_ != nullptr, capacity_bytes_.
 Stage D: oracle 1 = the scan specification (`cxxscan`, capacity = the framer's own capacity_bytes_) against the C++
-         callbacks; oracle 2 = the repository's Python decoder (max_payload = capacity_bytes_ - 24) against the C++
+         callbacks, per segment: the operations are cut at every Reset() and at every SetBuffer() the specification
+         accepts (capacity >= 24 + alignment loss), each segment is scanned from scratch with the capacity in force; oracle 2 = the repository's Python decoder (max_payload = capacity_bytes_ - 24) against the C++
          callbacks; direct statements: header 4-byte aligned, return value = bytes dispatched by that call,
          independence of chunking (callbacks, total return value, final state), no sanitizer report.
 """
@@ -131,8 +132,66 @@ def with_resets(rng, chunks):
     return ops
 
 
+# An operation is: bytes = OnData(bytes); None = Reset(); a string 'Bu<k>:<c>' / 'Bi:<c>' = SetBuffer() with a caller
+# buffer at an address = k mod 4 / with nullptr, capacity c (see cxx/c07_harness.cc).
+BKINDS = ['i', 'u0', 'u1', 'u2', 'u3']
+
+
+def bslack(kind):
+    return 0 if kind == 'i' else (4 - int(kind[1])) % 4
+
+
+def bop(kind, c):
+    return 'B%s:%d' % (kind, max(0, c))
+
+
+def bparse(op):
+    kind, c = op[1:].split(':')
+    return kind, int(c)
+
+
+def baccepted(op):
+    """The specification's verdict on a SetBuffer call: the capacity holds a header behind the alignment loss."""
+    kind, c = bparse(op)
+    return c >= 24 + bslack(kind)
+
+
+def with_buffers(rng, chunks):
+    """SetBuffer() (and a few Reset()) at random points of a division; the new capacity is taken around the number of
+    bytes received since the last cut (an upper bound of what is pending), around the header size, and from CAPS."""
+    ops = []
+    since = 0
+    n = 0
+    for c in chunks + [b'']:
+        r = rng.random()
+        if r < 0.3 or (n == 0 and c == b'' and r < 0.9):
+            kind = rng.choice(BKINDS)
+            sl = bslack(kind)
+            cap = rng.choice([since - 1, since, since + 1, since + sl, since // 2, 24 + sl, 23 + sl, 25 + sl, 28, 64, 164, 1024,
+                              rng.randrange(0, 40), rng.randrange(24, 24 + max(1, since))])
+            ops.append(bop(kind, cap))
+            n += 1
+            if baccepted(ops[-1]):
+                since = 0
+        elif r < 0.36:
+            ops.append(None)
+            since = 0
+        if c:
+            ops.append(c)
+            since += len(c)
+    return ops
+
+
 def ops_text(ops):
-    return ','.join('R' if o is None else (o.hex() or '-') for o in ops) or '='
+    return ','.join('R' if o is None else o if isinstance(o, str) else (o.hex() or '-') for o in ops) or '='
+
+
+def op_replay(o):
+    return 'R' if o is None else o if isinstance(o, str) else o.hex()
+
+
+def op_from_replay(o):
+    return None if o == 'R' else o if o.startswith('B') else bytes.fromhex(o)
 
 
 def requests_for(ctx, data, kinds):
@@ -150,6 +209,7 @@ def requests_for(ctx, data, kinds):
             res.append((cap, mode, list(chunks), 'chunking'))
         if rng.random() < 0.5:
             res.append((cap, mode, with_resets(rng, rng.choice(chs[1:])), 'reset'))
+        res.append((cap, mode, with_buffers(rng, list(rng.choice(chs[1:]))), 'setbuffer'))
         # another base alignment on the same input
         res.append((cap, rng.choice(MODES), list(chs[0]), 'chunking'))
     if len(data) <= (96 if ctx.thorough else 60):
@@ -162,7 +222,8 @@ def requests_for(ctx, data, kinds):
 
 # ---- judging ----------------------------------------------------------------------------------------------
 def parse_answer(ans):
-    """-> (hasbuf, cap, [record...]) with record = ('R', state) or ('D', [(align, bytes)], ret, state)."""
+    """-> (hasbuf, cap, [record...]) with record = ('R', state), ('B', hasbuf, cap, state) or
+    ('D', [(align, bytes)], ret, state)."""
     recs = ans.split(';')
     head = recs[0].split('|')
     if head[0] != 'init':
@@ -172,6 +233,8 @@ def parse_answer(ans):
         p = r.split('|')
         if p[0] == 'R':
             out.append(('R', tuple(p[1:4])))
+        elif p[0] == 'B':
+            out.append(('B', int(p[1]), int(p[2]), tuple(p[3:6])))
         else:
             cbs = [] if p[0] == '-' else [(int(c.split(':')[0]), bytes.fromhex(c.split(':')[1])) for c in p[0].split(',')]
             out.append(('D', cbs, int(p[1]), tuple(p[2:5])))
@@ -184,7 +247,7 @@ def strip_model(ans):
     ok = True
     out = [recs[0]]
     for r in recs[1:]:
-        if r.startswith('R|'):
+        if r.startswith('R|') or r.startswith('B|'):
             out.append(r)
         else:
             body, flag = r.rsplit('|', 1)
@@ -193,14 +256,21 @@ def strip_model(ans):
     return ';'.join(out), ok
 
 
-def segments(ops):
-    segs = [[]]
-    for o in ops:
+def segments(ops, hasbuf, cap, recs):
+    """Cuts the operations where the specification says the framer forgets its history: Reset() and every SetBuffer()
+    whose capacity holds a header behind the alignment loss (a refused SetBuffer cuts nothing).  The capacity in force
+    after a SetBuffer is the framer's own capacity_bytes_ (from its record), as for the constructor.
+    -> [{'hasbuf', 'cap', 'data', 'cbs'}]; cbs is filled by judge()."""
+    segs = [{'hasbuf': hasbuf, 'cap': cap, 'data': b'', 'cbs': []}]
+    for o, r in zip(ops, recs):
         if o is None:
-            segs.append([])
+            segs.append({'hasbuf': segs[-1]['hasbuf'], 'cap': segs[-1]['cap'], 'data': b'', 'cbs': []})
+        elif isinstance(o, str):
+            if baccepted(o) and r[0] == 'B':
+                segs.append({'hasbuf': r[1], 'cap': r[2], 'data': b'', 'cbs': []})
         else:
-            segs[-1].append(o)
-    return [b''.join(s) for s in segs]
+            segs[-1]['data'] += o
+    return segs
 
 
 class Job:
@@ -210,13 +280,13 @@ class Job:
 
     def replay(self):
         return {'stream': self.data.hex(), 'tokens': self.kinds, 'capacity': self.cap, 'mode': self.mode,
-                'ops': ['R' if o is None else o.hex() for o in self.ops],
+                'ops': [op_replay(o) for o in self.ops],
                 'harness_request': self.line if len(self.line) < 4000 else self.line[:4000] + '...'}
 
 
 def fault_signature(job):
     slack = 0 if job.mode == 'i' else (4 - int(job.mode)) % 4
-    if job.mode != 'i' and job.cap >= 24 and job.cap - slack < 24:
+    if job.mode != 'i' and job.cap >= 24 and job.cap - slack < 24 and not any(isinstance(o, str) for o in job.ops):
         return 'C07/sanitizer-report/user-buffer-smaller-than-header-after-alignment'
     return 'C07/sanitizer-report'
 
@@ -253,15 +323,29 @@ def judge(ctx, job, impl, model, report, scans, pydec):
     except Exception as e:
         ctx.disagree('unparseable harness answer %r (%s)' % (impl[:100], e), rp)
         return None
+    if len(recs) != len(job.ops) or any((o is None) != (r[0] == 'R') or isinstance(o, str) != (r[0] == 'B')
+                                       for o, r in zip(job.ops, recs)):
+        ctx.disagree('harness answer does not match the operations: %s' % impl[:200], rp)
+        return None
     # direct statements on the implementation
+    segs = segments(job.ops, hasbuf, cap_eff, recs)
+    si = 0
     allcbs = []
-    segcbs = [[]]
     total = 0
-    for r in recs:
+    for o, r in zip(job.ops, recs):
         if r[0] == 'R':
-            segcbs.append([])
+            si += 1
             if r[1] != ('0', '0', '0'):
                 ctx.violation('C07/reset-state', 'Reset() left state %s' % (r[1],), rp)
+            continue
+        if r[0] == 'B':
+            if baccepted(o):
+                si += 1
+                if r[3] != ('0', '0', '0'):
+                    # what was pending in the old buffer must not be applied to the new one
+                    ctx.violation('C07/setbuffer-state', 'SetBuffer() (%s, accepted: capacity_bytes_=%d) left state_/'
+                                  'next_byte_index_/current_message_size_ = %s instead of the reset state'
+                                  % (o, r[2], '/'.join(r[3])), rp)
             continue
         _, cbs, ret, st = r
         for a, m in cbs:
@@ -274,20 +358,21 @@ def judge(ctx, job, impl, model, report, scans, pydec):
             return None
         total += ret
         allcbs += [m for _, m in cbs]
-        segcbs[-1] += [m for _, m in cbs]
-    # oracle 1: the scan with the framer's own capacity
-    segs = segments(job.ops)
-    for seg, got in zip(segs, segcbs):
-        if not hasbuf:
+        segs[si]['cbs'] += [m for _, m in cbs]
+    # oracle 1: the scan with the framer's own capacity, segment by segment
+    for k, sg in enumerate(segs):
+        seg, got = sg['data'], sg['cbs']
+        if not sg['hasbuf']:
             exp = []
         else:
-            msgs = scans[(cap_eff, seg)].split('|')[0]
+            msgs = scans[(sg['cap'], seg)].split('|')[0]
             exp = [seg[int(o):int(o) + int(n)] for o, n in (x.split(':') for x in msgs.split(','))] if msgs else []
         if got != exp:
-            k = next((i for i, (a, b) in enumerate(zip(got, exp)) if a != b), min(len(got), len(exp)))
+            d = next((i for i, (a, b) in enumerate(zip(got, exp)) if a != b), min(len(got), len(exp)))
+            where = '' if len(segs) == 1 else ' in segment %d of %d (cut at Reset() / accepted SetBuffer())' % (k + 1, len(segs))
             ctx.violation('C07/callbacks-differ-from-scan',
-                          'capacity_bytes_=%d: framer dispatched %d messages %s, the scan accepts %d %s (first difference at #%d)'
-                          % (cap_eff, len(got), [len(m) for m in got][:12], len(exp), [len(m) for m in exp][:12], k), rp)
+                          'capacity_bytes_=%d: framer dispatched %d messages %s, the scan accepts %d %s (first difference at #%d)%s'
+                          % (sg['cap'], len(got), [len(m) for m in got][:12], len(exp), [len(m) for m in exp][:12], d, where), rp)
             return None
     # oracle 2: the Python decoder with the equivalent limit
     if pydec is not None and hasbuf:
@@ -321,13 +406,15 @@ def run_jobs(ctx, exe, jobs, py_fraction=1.0):
     # scan requests, deduplicated
     need = {}
     for j, a in zip(jobs, impl):
-        ce = None
-        if a.startswith('init|'):
-            ce = int(a.split(';')[0].split('|')[2])
-        if ce is None:
+        if not a.startswith('init|'):
             continue
-        for seg in segments(j.ops):
-            need[(ce, seg)] = None
+        try:
+            hb, ce, recs = parse_answer(a)
+        except Exception:
+            continue
+        for sg in segments(j.ops, hb, ce, recs):
+            if sg['hasbuf']:
+                need[(sg['cap'], sg['data'])] = None
     keys = list(need)
     outs = ctx.driver(['cxxscan %d %s' % (c, s.hex() or '-') for c, s in keys])
     scans = dict(zip(keys, outs))
@@ -335,7 +422,7 @@ def run_jobs(ctx, exe, jobs, py_fraction=1.0):
     groups = {}
     for idx, (j, a, m) in enumerate(zip(jobs, impl, model)):
         py = None
-        noreset = all(o is not None for o in j.ops)
+        noreset = all(isinstance(o, bytes) for o in j.ops)
         if noreset and a.startswith('init|1|'):
             ce = int(a.split(';')[0].split('|')[2])
             key = (ce, j.data)
@@ -373,8 +460,57 @@ def construction_jobs():
     return [Job(z, 'Z', cap, mode, [z], 'construct') for cap in list(range(0, 41)) + [164] for mode in MODES]
 
 
+def setbuffer_sweep_jobs(ctx):
+    """SetBuffer() at every point of a message.  Stream = one valid message M followed by three valid messages; the
+    first `cut` bytes of M are fed (cut = 0: nothing pending; 1..23: inside the header; 24..len-1: inside the payload;
+    len: right after the dispatch), then the buffer is replaced, then the rest is fed (in one call / bytewise / in
+    7-byte blocks).  x first buffer: caller-supplied at every alignment, internally allocated, none (constructor refused)
+    x new buffer: caller-supplied at every alignment, internally allocated x new capacity: refused (one byte short of a
+    header behind the alignment loss), the smallest accepted, one below / equal to / one above the number of bytes
+    pending, the old capacity, larger."""
+    rng = ctx.rng
+    jobs = []
+    z = gen.frame(9, b'', seq=11)
+    tail = z + gen.frame(9, bytes(rng.randrange(256) for _ in range(16)), seq=12) + gen.frame(9, b'\x2e\x31' * 30, seq=13)
+    payloads = [0, 40, 300] if not ctx.thorough else [0, 1, 40, 104, 300, 1000]
+    for n in payloads:
+        msg = gen.frame(9, bytes(rng.randrange(256) for _ in range(n)), seq=10)
+        data = msg + tail
+        L = len(msg)
+        if L <= 64 or (ctx.thorough and L <= 128):
+            cuts = list(range(L + 1))
+        else:
+            cuts = sorted(set([0, 1, 2, 23, 24, 25, 63, 64, 65, L - 1, L] + [rng.randrange(26, L) for _ in range(14 if not ctx.thorough else 40)]))
+        for cut in cuts:
+            firsts = [(max(1024, n + 200), rng.choice("0123")), (max(1024, n + 200), "i")]
+            if cut % 8 == 0:
+                firsts.append((rng.randrange(0, 24), rng.choice(MODES)))     # no buffer until SetBuffer() supplies one
+            for cap0, mode in firsts:
+                for kind in (rng.choice(BKINDS[1:]), 'i') if not ctx.thorough else BKINDS:
+                    sl = bslack(kind)
+                    caps = {23 + sl, 24 + sl, cut - 1 + sl, cut + sl, cut + 1 + sl, cut, cap0, len(data) + 100}
+                    for c in sorted(x for x in caps if x >= 0):
+                        rest = data[cut:]
+                        how = rng.randrange(3)
+                        after = [rest] if how == 0 else [rest[i:i + 1] for i in range(len(rest))] if how == 1 else \
+                            [rest[i:i + 7] for i in range(0, len(rest), 7)]
+                        ops = ([data[:cut]] if cut else []) + [bop(kind, c)] + after
+                        jobs.append(Job(data, 'setbuffer-sweep', cap0, mode, ops, 'setbuffer_sweep'))
+    # two replacements in a row, and a replacement of the replacement in the middle of the next message
+    for _ in range(40 if not ctx.thorough else 200):
+        msg = gen.frame(9, bytes(rng.randrange(256) for _ in range(rng.choice([0, 8, 40, 100]))), seq=20)
+        data = msg + msg + tail
+        c1, c2 = sorted(rng.sample(range(len(data) + 1), 2))
+        k1, k2, k3 = (rng.choice(BKINDS) for _ in range(3))
+        ops = [data[:c1], bop(k1, rng.choice([24, 27, 28, c1, c1 + 3, 64, 200])), bop(k2, rng.choice([24, 27, c1, 64, 200])),
+               data[c1:c2], bop(k3, rng.choice([24 + bslack(k3), c2 - c1, c2 - c1 + bslack(k3), 64, 200])), data[c2:]]
+        jobs.append(Job(data, 'setbuffer-twice', rng.choice([64, 164, 1024]), rng.choice(MODES), [o for o in ops if o != b''],
+                        'setbuffer_sweep'))
+    return jobs
+
+
 def run(ctx, exe, budget):
-    jobs = construction_jobs()
+    jobs = construction_jobs() + setbuffer_sweep_jobs(ctx)
     for data, kinds in streams(ctx, budget):
         for t in kinds if kinds.isalpha() and kinds.isupper() else ['x']:
             ctx.count('token_' + t)
@@ -395,13 +531,21 @@ def check(ctx):
                        'resync-heavy streams (duplicated sync bytes, false headers) + malformed streams; x capacities %s and one larger '
                        'than the stream; x construction (user buffer at base = 0..3 mod 4 in an exact-size heap block, internal '
                        'allocation); x divisions into OnData calls (one call, bytewise, random cuts, 24- and 7-byte blocks, every '
-                       '(prefix, rest) pair for short streams); x Reset() at random points; + every capacity 0..40 x every alignment. '
+                       '(prefix, rest) pair for short streams); x Reset() at random points; x SetBuffer() at random points (caller '
+                       'buffer at base = 0..3 mod 4 in a new exact-size heap block, the old block freed; or internally allocated; '
+                       'capacity around the byte count since the last cut, around the header size, refused ones included); '
+                       '+ SetBuffer() sweep: at every byte position of a message (nothing pending / inside the header / inside the '
+                       'payload / right after the dispatch) x from {caller, internal, no buffer} x to {caller, internal} x new '
+                       'capacity {refused, smallest accepted, pending-1, pending, pending+1, old, larger}; '
+                       '+ every capacity 0..40 x every alignment. '
                        'A case is non-trivial if the stream has >= 24 bytes or a message is dispatched; distinct = distinct harness '
                        'request' % (3 if ctx.thorough else 2, CAPS))
     ctx.assumptions += [
         'CalculateCRC (crc.cc) is the CRC-32 of Model/Crc32.lean (compared on every candidate the framer checks)',
         'the literal model (Model/CxxFramer.lean) is tied to fusion_engine_framer.cc by the per-call comparison of callbacks, return '
-        'value, state_, next_byte_index_, current_message_size_, capacity_bytes_',
+        'value, state_, next_byte_index_, current_message_size_, capacity_bytes_ (also per Reset() and per SetBuffer())',
+        'SetBuffer() on a live object: after an accepted call only the new storage is live (the harness frees the previous caller '
+        'block, exact-size heap blocks under ASan), so an access through the old pointer or beyond the new capacity is a sanitizer report',
         'memory safety of the compiled code: model-level theorem (every index < capacity) + ASan/UBSan on every harness run',
         'operator new[] returns 4-byte aligned storage (internal buffers; ClearManagedBuffer deletes the aligned pointer)',
         'same_as_python is proved for capacity_bytes_ <= 24 + 2^24 (the Python header rejects payloads above 2^24, the C++ framer does not)']
@@ -420,7 +564,7 @@ def replay(ctx, path):
     obj = json.load(open(path))
     r = obj['input']
     data = bytes.fromhex(r['stream'])
-    ops = [None if o == 'R' else bytes.fromhex(o) for o in r['ops']]
+    ops = [op_from_replay(o) for o in r['ops']]
     exe = build_harness(ctx)
     if not exe:
         return fv.finish(ctx, 'proof', None)
